@@ -8,6 +8,7 @@ CONSTANTS
   MaxH = 2
   ResetProvides = TRUE
   TakeEmptiesSlot = TRUE
+  KeyRaceDev = TRUE
   DropReturnsQueued = TRUE
 SPECIFICATION Spec
 INVARIANTS Safe
